@@ -155,9 +155,9 @@ def run(ctx):
 
     # ---- 1. model checking of the design (runs while the harness is built and driven)
     mc_futs = {c: pool.submit(tlc.run, ctx, SPEC, "MC_HashRing", cfg="MC_%s.cfg" % c, workers=w,
-                              timeout=ctx.pick(80, 1500), name="mc-" + c, coverage=False)
+                              timeout=ctx.pick(900, 1500), name="mc-" + c, coverage=False)
                for c, w in mc_cfgs}
-    neg_futs = {c: pool.submit(tlc.run, ctx, SPEC, "MC_HashRing", cfg="MC_%s.cfg" % c, workers=1, timeout=120,
+    neg_futs = {c: pool.submit(tlc.run, ctx, SPEC, "MC_HashRing", cfg="MC_%s.cfg" % c, workers=1, timeout=900,
                                name="mc-" + c) for c, _ in MC_NEGATIVE}
 
     # ---- 2. drive the real selectors
